@@ -5,3 +5,6 @@ from ..rules import lock
 def run(ctx, rep):
     mod = ctx.mod
     lock.rule_L3_new_supernode_atomic(mod, rep)
+    from ..rules import misc
+    misc.rule_usepr_shared(mod, rep)
+    misc.rule_refact_refresh(mod, rep)
